@@ -30,8 +30,42 @@ TRAILS = [[1], [2], [4], [2, 2], [2, 2]]  # trailing (range) axes of a general n
 CSPACES = ["RGB", "BGR", "HSV"]
 
 
+# number type in which the physical metadata is handed to the image: all floats; dimensions and origin as
+# Python ints; only the origin as ints; only the dimensions as ints (a default origin is then derived from them)
+MTYPES = ["float", "float", "float", "int", "int-origin", "int-dims"]
+# life of the image object before it is patched: None = freshly constructed; otherwise it was constructed at
+# another origin, used (TOUCHES), and then moved in place to the origin of the case
+HISTORIES = [None, None, None, "reset", "update-kw", "update-dict"]
+TOUCHES = ["cs", "patches", "patches", "subregion", "none"]
+
+
+def _draw_origin(draw, shape, dims, as_int):
+    """A user origin: whole numbers (handed over as ints) or up to 1e4 voxel sizes away, measured in the
+    voxel size of that Cartesian axis."""
+    origin = []
+    for c in range(2):
+        k = draw(st.one_of(st.integers(-20, 20), st.integers(-10**4, 10**4)))
+        if as_int:
+            origin.append(float(k))
+            continue
+        frac = draw(st.sampled_from([0.0, 0.5, 0.25, 0.3]))
+        m = AXES[2][c][0]
+        origin.append(float((k + frac) * dims[m] / shape[m]))
+    return origin
+
+
 @st.composite
-def cases(draw, max_extent=40, overlap="any"):
+def cases(draw, max_extent=40, overlap="any", special=False):
+    mtype = draw(st.sampled_from(MTYPES))
+    via = draw(st.sampled_from(HISTORIES))
+    if special:
+        # every case has integer-typed metadata, or an origin moved in place, or both
+        which = draw(st.sampled_from(["mtype", "history", "both"]))
+        if which != "history" and mtype == "float":
+            mtype = draw(st.sampled_from([m for m in MTYPES if m != "float"]))
+        if which != "mtype" and via is None:
+            via = draw(st.sampled_from([h for h in HISTORIES if h is not None]))
+    int_dims, int_origin = mtype in ("int", "int-dims"), mtype in ("int", "int-origin")
     shape, npatch, dims, dkinds = [], [], [], []
     for ax in range(2):
         n = draw(st.integers(1, 6))
@@ -40,11 +74,16 @@ def cases(draw, max_extent=40, overlap="any"):
             N = n * draw(st.integers(1, max(1, max_extent // n)))
         else:
             N = draw(st.integers(1, max_extent))
-        dk = draw(st.sampled_from(["pow2", "unit", "decimal-h", "decimal-h", "generic", "generic"]))
+        if int_dims:
+            dk = draw(st.sampled_from(["unit", "pow2", "integer", "integer"]))
+        else:
+            dk = draw(st.sampled_from(["pow2", "unit", "decimal-h", "decimal-h", "generic", "generic"]))
         if dk == "pow2":
-            D = float(N * 2.0 ** draw(st.integers(-8, 8)))
+            D = float(N * 2.0 ** draw(st.integers(0 if int_dims else -8, 8)))
         elif dk == "unit":
             D = float(N)
+        elif dk == "integer":
+            D = float(draw(st.integers(1, 60)))
         elif dk == "decimal-h":
             D = N * draw(st.sampled_from(H_DECIMAL))
         else:
@@ -54,19 +93,27 @@ def cases(draw, max_extent=40, overlap="any"):
         npatch.append(n)
         dims.append(float(D))
         dkinds.append(dk)
+    dims_given = True
+    if int_dims and draw(st.sampled_from([False, False, False, True])):
+        # no dimensions handed over at all: the image takes its default, [1, 1]
+        dims, dkinds, dims_given = [1.0, 1.0], ["default", "default"], False
     if overlap == "positive":
         ov = draw(st.one_of(st.sampled_from([o for o in OVERLAPS if o > 0]), st.floats(0.01, 0.5, allow_nan=False)))
     else:
         ov = draw(st.one_of(st.sampled_from(OVERLAPS), st.floats(0.0, 0.5, allow_nan=False)))
-    origin = None
-    if draw(st.booleans()):
-        # user origin, up to 1e4 voxel sizes away, measured in the voxel size of that Cartesian axis
-        origin = []
-        for c in range(2):
-            k = draw(st.one_of(st.integers(-20, 20), st.integers(-10**4, 10**4)))
-            frac = draw(st.sampled_from([0.0, 0.5, 0.25, 0.3]))
-            m = AXES[2][c][0]
-            origin.append(float((k + frac) * dims[m] / shape[m]))
+    # "origin" is the origin the image has when it is patched (None: the default one)
+    origin, hist = None, None
+    if via == "reset":
+        # constructed at a user origin, used, then reset_origin(): ends at the default origin
+        hist = {"via": via, "first": _draw_origin(draw, shape, dims, int_origin),
+                "touch": draw(st.sampled_from(TOUCHES))}
+    elif via is not None:
+        # constructed at the default or at a user origin, used, then moved through update_metadata
+        first = _draw_origin(draw, shape, dims, int_origin) if draw(st.booleans()) else None
+        hist = {"via": via, "first": first, "touch": draw(st.sampled_from(TOUCHES))}
+        origin = _draw_origin(draw, shape, dims, int_origin)
+    elif int_origin or draw(st.booleans()):
+        origin = _draw_origin(draw, shape, dims, int_origin)
     payload = draw(st.sampled_from(["scalar", "scalar", "scalar", "colour", "colour", "colour", "trailing", "trailing"]))
     cls, trail, cspace = "Image", None, "RGB"
     if payload == "scalar":
@@ -89,6 +136,7 @@ def cases(draw, max_extent=40, overlap="any"):
         "pseed": draw(st.integers(0, 2**16)),
         "np_as": draw(st.sampled_from(["list", "tuple", "npint"])),
         "trail": trail, "cspace": cspace, "meta": meta,
+        "mtype": mtype, "dims_given": dims_given, "hist": hist,
     }
 
 
@@ -98,6 +146,10 @@ def gen(tier):
 
 def gen_overlap(tier):
     return cases(40, overlap="positive")
+
+
+def gen_special(tier):
+    return cases(40, special=True)
 
 
 # ---------------------------------------------------------------------------------------
@@ -132,11 +184,38 @@ def _payload(case, ids=False):
     return (rng.integers(-32, 32, size=shp) / 8.0).astype(np.float32 if dt == "float32" else np.float64)
 
 
-def _build(case, ids=False):
+def _typed(values, as_int):
+    """The numbers in the type in which the case hands them to the image (whole by construction if int)."""
+    if as_int:
+        assert all(float(int(v)) == float(v) for v in values), values
+        return [int(v) for v in values]
+    return [float(v) for v in values]
+
+
+def _touch(case, img):
+    """Ordinary use of the image before its origin is moved."""
+    how = case["hist"]["touch"]
+    if how == "cs":
+        np.asarray(img.coordinatesystem.coordinate(np.array([0, 0])))
+    elif how == "patches":
+        darsia.Patches(img, _count_arg(case), rel_overlap=case["ov"])
+    elif how == "subregion":
+        img.subregion((slice(0, max(1, case["shape"][0] // 2)), slice(0, max(1, case["shape"][1] // 2))))
+
+
+def _build(case, ids=False, plain=False):
+    """The image of the case (with its number types and its history), its data and the reference map of its
+    *current* metadata. plain=True: the same data and metadata as a freshly constructed image, all floats."""
     arr = _payload(case, ids)
-    kw = {"dimensions": [float(d) for d in case["dims"]]}
-    if case["origin"] is not None:
-        kw["origin"] = [float(o) for o in case["origin"]]
+    mtype = "float" if plain else case.get("mtype", "float")
+    hist = None if plain else case.get("hist")
+    int_dims, int_origin = mtype in ("int", "int-dims"), mtype in ("int", "int-origin")
+    kw = {}
+    if plain or case.get("dims_given", True):
+        kw["dimensions"] = _typed(case["dims"], int_dims)
+    first = hist["first"] if hist else case["origin"]
+    if first is not None:
+        kw["origin"] = _typed(first, int_origin)
     if case.get("meta"):
         kw.update(case["meta"])
     if case["cls"] == "ScalarImage":
@@ -145,6 +224,16 @@ def _build(case, ids=False):
         img = darsia.OpticalImage(arr, color_space=case.get("cspace", "RGB"), **kw)
     else:
         img = darsia.Image(arr, space_dim=2, scalar=case["payload"] == "scalar", **kw)
+    if hist:
+        _touch(case, img)
+        if hist["via"] == "reset":
+            img.reset_origin()
+        else:
+            new = darsia.Coordinate(np.array(_typed(case["origin"], int_origin)))
+            if hist["via"] == "update-kw":
+                img.update_metadata(origin=new)
+            else:
+                img.update_metadata({"origin": new})
     ref = RefCS(2, case["shape"], case["dims"], case["origin"])
     return img, arr.copy(), ref
 
@@ -172,7 +261,8 @@ def _divisible(case):
 
 def _tags(case, **extra):
     t = {"divisible": _divisible(case), "overlap": case["ov"] > 0, "payload": case["payload"],
-         "origin": "user" if case["origin"] is not None else "default"}
+         "origin": "user" if case["origin"] is not None else "default",
+         "mtype": case.get("mtype", "float"), "history": (case.get("hist") or {}).get("via", "fresh")}
     t.update(extra)
     return t
 
@@ -208,8 +298,18 @@ def _outcome(case, p, evals):
         labels.append(f"colour-space-{case.get('cspace', 'RGB')}")
     if case.get("meta"):
         labels.append("extra-metadata")
+    labels.append(f"metadata-{case.get('mtype', 'float')}")
+    if np.asarray(p.base.origin).dtype.kind in "iu":
+        labels.append("origin-array-integer-typed")
+    if not case.get("dims_given", True):
+        labels.append("dimensions-omitted")
+    hist = case.get("hist")
+    labels.append(f"history-{hist['via']}" if hist else "history-fresh")
+    if hist:
+        labels.append(f"used-before-move-{hist['touch']}")
     nontrivial = (not div) or case["ov"] > 0 or not pow2
-    key = [N, n, case["dims"], case["ov"], case["origin"], case["payload"]]
+    key = [N, n, case["dims"], case["ov"], case["origin"], case["payload"], case.get("mtype", "float"),
+           hist["via"] if hist else None]
     return Outcome(nontrivial, key, tuple(labels), evals=max(1, evals))
 
 
@@ -768,6 +868,91 @@ def check_reuse(case):
 
 
 # ---------------------------------------------------------------------------------------
+# 9. the patching follows the metadata the image has *now*, whatever its number type and history
+# ---------------------------------------------------------------------------------------
+
+
+def _special_class(case):
+    return "origin-moved" if case.get("hist") else "integer-typed"
+
+
+def check_current_metadata(case):
+    try:
+        return _compare_with_fresh(case)
+    except Violation:
+        if case.get("hist") and case.get("mtype", "float") != "float":
+            # both classes at once: name the number type if it alone already makes the difference
+            _compare_with_fresh(dict(case, hist=None))
+        raise
+
+
+def _compare_with_fresh(case):
+    """An image whose origin / dimensions were given as integers, or whose origin was moved in place
+    (reset_origin, update_metadata) after the image had been used, is patched exactly like a freshly
+    constructed image with the same data and the same metadata given as floats: same rois, same corner
+    and centre tables, same patch images at the same places, same re-assembled image. Conversion of
+    whole numbers to floats is exact, so is the comparison (Cartesian values to the usual tolerance)."""
+    img, arr, ref = _build(case)
+    fresh, _, _ = _build(case, plain=True)
+    kind = "differs-from-fresh-float-image:" + _special_class(case)
+    tol = KTOL * EPS * _scale(ref)
+
+    def differ(what, msg):
+        return Violation(kind, f"{what}: {msg} [image: metadata as {case.get('mtype', 'float')}, history "
+                         f"{case.get('hist')}; compared with a fresh image with dimensions {case['dims']}, origin "
+                         f"{ref.origin.tolist()}]", _tags(case, what=what))
+
+    def same_place(a, b):
+        oa, ob = np.asarray(a.origin, float), np.asarray(b.origin, float)
+        da, db = np.asarray(a.dimensions, float), np.asarray(b.dimensions, float)
+        return oa.shape == ob.shape and da.shape == db.shape and not np.any(np.abs(oa - ob) > tol) \
+            and not np.any(np.abs(da - db) > tol[[1, 0]])
+
+    # the image itself reports the metadata of the case
+    if not np.array_equal(np.asarray(img.origin, float), ref.origin) or \
+            [float(d) for d in img.dimensions] != [float(d) for d in case["dims"]]:
+        raise differ("base-metadata", f"the image reports origin {np.asarray(img.origin).tolist()}, dimensions "
+                     f"{list(img.dimensions)}")
+    p = _patches(case, img)
+    q = _patches(case, fresh)
+    ids = _ij(case)
+    for name in ("rois", "relative_rois_without_overlap"):
+        a, b = getattr(p, name), getattr(q, name)
+        if [[tuple(x) for x in row] for row in a] != [[tuple(x) for x in row] for row in b]:
+            raise differ(name, f"{a} vs {b}")
+    for name in ("global_corners_voxels", "local_corners_voxels", "global_centers_voxels"):
+        a, b = np.asarray(getattr(p, name)), np.asarray(getattr(q, name))
+        if a.shape != b.shape or not np.array_equal(a, b):
+            k = tuple(int(x) for x in np.argwhere(a != b)[0][:2]) if a.shape == b.shape else None
+            raise differ(name, f"shape {a.shape} vs {b.shape}" if k is None else
+                         f"patch {k}: {a[k].tolist()} vs {b[k].tolist()}")
+    for name in ("global_corners_cartesian", "global_centers_cartesian"):
+        a, b = np.asarray(getattr(p, name), float), np.asarray(getattr(q, name), float)
+        if a.shape != b.shape or np.any(np.abs(a - b) > tol):
+            k = tuple(int(x) for x in np.argwhere(np.abs(a - b) > tol)[0][:2]) if a.shape == b.shape else None
+            raise differ(name, f"shape {a.shape} vs {b.shape}" if k is None else
+                         f"patch {k}: {a[k].tolist()} vs {b[k].tolist()}")
+    for i, j in ids:
+        a, b = p(i, j), q(i, j)
+        if a.img.shape != b.img.shape or a.img.dtype != b.img.dtype or not np.array_equal(a.img, b.img):
+            raise differ("patch-data", f"patch ({i},{j}) has other content")
+        if 0 in a.img.shape[:2]:
+            continue
+        if not same_place(a, b):
+            raise differ("patch-geometry", f"patch ({i},{j}) sits at origin {np.asarray(a.origin).tolist()} with "
+                         f"dimensions {list(a.dimensions)}, the fresh image's patch at "
+                         f"{np.asarray(b.origin).tolist()} with {list(b.dimensions)}")
+    out, want = p.assemble(), q.assemble()
+    if out.img.shape != want.img.shape or not np.array_equal(out.img, want.img) or not np.array_equal(out.img, arr):
+        raise differ("assembled-data", "assemble() gives another image")
+    if not same_place(out, want):
+        raise differ("assembled-geometry", f"assembled image at {np.asarray(out.origin).tolist()} / "
+                     f"{list(out.dimensions)}, from the fresh image at {np.asarray(want.origin).tolist()} / "
+                     f"{list(want.dimensions)}")
+    return _outcome(case, p, 8 + 2 * len(ids))
+
+
+# ---------------------------------------------------------------------------------------
 
 _RULE = ("Hypothesis draws a 2-D image (extents 1..40 per axis, one third forced divisible by the "
          "patch count), patch counts 1..6 per axis (as list, tuple or list of numpy integers), relative "
@@ -776,6 +961,12 @@ _RULE = ("Hypothesis draws a 2-D image (extents 1..40 per axis, one third forced
          "hazard) / generic, default or user origin, payload scalar / 3-channel colour / general "
          "trailing axes (1, 2, 4 channels, 2x2 tensors) as Image / ScalarImage / OpticalImage (RGB, BGR, "
          "HSV), dtypes float64 / float32 / uint8 / uint16 / int64 / bool, optionally a name and a time; "
+         "the metadata numbers as floats, or dimensions and / or origin as Python ints (whole-number values; "
+         "a quarter of the integer-dimension cases omit the dimensions: default [1, 1]); about half of the "
+         "images are not fresh: constructed at another origin, used (coordinate system read, patched, "
+         "subregion cut, or nothing) and moved in place by reset_origin() or update_metadata(origin=...) "
+         "to the origin of the case, against which every law is judged (follows_current_metadata draws only "
+         "integer-typed and / or moved images); "
          "non-trivial = extent not divisible by the count, or overlap > 0, or "
          "non-power-of-two dimensions; distinct = (shape, counts, dimensions, overlap, origin, payload)")
 
@@ -805,6 +996,14 @@ PROP = Prop(
         "set_image stores content, not the caller's buffer; assemble(update_img=True) makes an image of its "
         "own the base (both copies are explicit in the source); whether the image object originally handed "
         "to Patches changes on update_img is not asserted",
+        "origin / dimensions given as whole Python ints mean the same image as the floats of equal value "
+        "(the constructor's own defaults are ints: dimensions [1, 1], origin [0, 0]); reset_origin() and "
+        "update_metadata(origin=Coordinate) are the documented in-place ways to move an image, after which "
+        "the image is the one a constructor call with the new origin gives: follows_current_metadata compares "
+        "rois, all corner / centre tables, patch data and placement, and the assembled image with those of a "
+        "freshly constructed float-typed image (voxel tables and data exactly, Cartesian values to the tolerance "
+        "above); a case that is both integer-typed and moved is attributed to the number type if the "
+        "difference persists without the move",
         "patch counts given as numpy integers are accepted like Python ints (observed; counts usually come "
         "out of array computations)",
     ],
@@ -818,5 +1017,6 @@ PROP = Prop(
         Sub("local_corners", check_local_corners, gen=gen, n=_N2, shards=_SH2),
         Sub("overlap_extends_interiors", check_overlap, gen=gen_overlap, n=_N2, shards=_SH2),
         Sub("reuse_and_update_base", check_reuse, gen=gen, n=_N2, shards=_SH2),
+        Sub("follows_current_metadata", check_current_metadata, gen=gen_special, n=_N2, shards=_SH2),
     ],
 )
